@@ -37,6 +37,10 @@ FUNCTIONS = [
     "autoarray.inversion.inversion.abstract.AbstractInversion.regularization_matrix",
     "autoarray.inversion.inversion.abstract.AbstractInversion.regularization_matrix_reduced",
     "autoarray.inversion.inversion.abstract.AbstractInversion.no_regularization_index_list",
+    "autoarray.inversion.regularization.gaussian_kernel.gauss_cov_matrix_from",
+    "autoarray.inversion.regularization.gaussian_kernel.GaussianKernel.regularization_matrix_from",
+    "autoarray.inversion.regularization.exponential_kernel.exp_cov_matrix_from",
+    "autoarray.inversion.regularization.exponential_kernel.ExponentialKernel.regularization_matrix_from",
 ]
 
 RIDGE = 1e-8          # the float literal of the repository; enters both sides as the exact rational of this float
@@ -63,13 +67,25 @@ BOUNDS = {
              "the entries of regularization blocks at the inversion level. "
              "Definiteness decided directly by the solver (exists x != 0: x^T H x <= 0 unsat, coefficient symbolic) for Constant on all meshes with "
              "<= 9 pixels, ConstantZeroth on <= 5 pixels, ConstantSplit (dyadic stand-in cross weights) on D5, D6; for all other scheme/mesh "
-             "combinations by solver-decided certificates (see assumptions)",
+             "combinations by solver-decided certificates (see assumptions). "
+             "HISTORIES: on one linear object (real 3x3 mapper, 3-parameter function list) the block is observed directly and through new "
+             "inversions, then its regularization is removed / added / replaced / its coefficient reassigned and everything is observed again "
+             "(coefficients and x symbolic). "
+             "KERNEL SCHEMES, ASSEMBLY ONLY: gauss_cov_matrix_from / exp_cov_matrix_from entrywise for EVERY pixel pair against "
+             "exp(-d^2/(2 s^2)) resp. exp(-d/s) (exp uninterpreted, scale symbolic > 0, mesh points of 3x3 and D5, Gaussian also 3 points with "
+             "symbolic coordinates), symmetric, diagonal 1 + 1e-8; GaussianKernel / ExponentialKernel through real mappers: the matrix handed "
+             "to np.linalg.inv is that covariance and the result is coefficient * (the inverse returned)",
     "thorough": "as quick plus rectangular meshes 4x5, 5x3, 6x6, 5x7, 7x7, 8x8 and Delaunay set D12 at kernel level, every symmetric neighbour table "
                 "on 5 pixels, classes on 4x4, 4x3, 5x5, D6, D9, D12 with 3x3 and 4x4 adapt images, function lists up to 8 parameters, split-cross tables of "
-                "all five Delaunay mappers, direct definiteness up to 12 pixels for rectangular meshes (3x4, 4x3), block sequences of <= 4 objects",
+                "all five Delaunay mappers, direct definiteness up to 12 pixels for rectangular meshes (3x4, 4x3), block sequences of <= 4 objects, "
+                "histories also on D6 and 3x4, kernel covariance also on 4x4, 3x5, D9 and 4 symbolic points",
 }
 OUTSIDE = [
-    "GaussianKernel / ExponentialKernel / MaternKernel schemes (exp of distances followed by a compiled matrix inverse; nothing is claimed)",
+    "GaussianKernel / ExponentialKernel: positive definiteness / symmetry of the returned matrix (inverse of a matrix of exponentials: Bochner's "
+    "theorem plus a compiled LAPACK inverse, not a bounded SMT fact) - only the ASSEMBLY is claimed: which covariance is built (every pair, "
+    "no truncation) and that coefficient * inv(covariance) is returned. MaternKernel: nothing is claimed",
+    "kernel covariance: scales so small that a wrong entry is below float64 resolution (exp(-d^2/2s^2) underflows) are decided by the solver but a "
+    "counterexample there cannot be replayed; the 'window' sub-cases (all distances <= 6.5 scales) make counterexamples replayable",
     "float64 rounding: for coefficients >~ 1e4 the absolute 1e-8 ridge is below the float resolution of the matrix entries, so the float matrix "
     "is numerically singular although the real-arithmetic matrix is positive definite",
     "meshes beyond the listed shapes / vertex sets; Voronoi meshes; Delaunay adjacency itself is qhull's answer (the reference pairs are the "
@@ -81,6 +97,9 @@ STUBS = [
     "pixel_signals ** signal_scale with a symbolic signal_scale: uninterpreted function pow(base, exponent) (no axioms; every obligation holds "
     "for arbitrary real values of the signals, so none are needed). Cases with signal_scale 1 and 2 use the exact polynomial.",
     "scipy.spatial.Delaunay / find_simplex run natively on the concrete vertex sets (mesh geometry is concrete)",
+    "np.exp of a symbolic argument: uninterpreted function (engine default); no axiom is used (the diagonal exp(0) is folded to the float 1.0 "
+    "by numpy itself). np.linalg.inv on a symbolic covariance inside GaussianKernel/ExponentialKernel.regularization_matrix_from: the module's "
+    "np is swapped for the duration of the call by a recorder that returns a matrix of fresh reals ('the inverse', opaque) and logs the argument",
     "autoarray.mock MockMapper / MockLinearObj / MockRegularization / MockInversion as carriers of symbolic split-cross tables, pixel signals "
     "and regularization blocks (the code under test - scheme classes, LinearObj.regularization_matrix, AbstractInversion.regularization_matrix"
     "[_reduced] - is the real one)",
